@@ -156,8 +156,14 @@ class RawMeshData:
         def is_valid(a,b):
             return a!=b and 0<=a<N and 0<=b<N
 
-        # Filter invalid edges (like (x,x)) and make the other immutable
-        edges_invalid = any((not is_valid(a,b) for a,b in self.edges))
+        # Filter invalid edges (like (x,x)) and edges declared more than once (the first declaration is kept), make the other immutable
+        seen = set()
+        keep = []
+        for a,b in self.edges:
+            key = utils.keyify(int(a),int(b))
+            keep.append(is_valid(a,b) and key not in seen)
+            if keep[-1]: seen.add(key)
+        edges_invalid = not all(keep)
         if edges_invalid:
             # Rebuild the edge container
             new_edges = DataContainer(id="edges")
@@ -170,7 +176,7 @@ class RawMeshData:
             n = 0
             for ie in self.id_edges:
                 a,b = self.edges[ie]
-                if is_valid(a,b):
+                if keep[ie]:
                     new_edges.append(utils.keyify(int(a),int(b)))
                     for name in new_attrs:
                         if isinstance(old_attrs[name], ArrayAttribute) or ie in old_attrs[name]._data: # a dense attribute holds a value for every edge; keep sparsity of a sparse one
